@@ -133,6 +133,12 @@ def int_eval(fn, env: dict[str, object], consts: dict[str, object] | None = None
             return tuple(ev(x, loc) for x in e.elts)
         if isinstance(e, ast.Call) and isinstance(e.func, ast.Name) and e.func.id == 'int' and len(e.args) == 1:
             return int(ev(e.args[0], loc))
+        if isinstance(e, ast.Call) and isinstance(e.func, ast.Name) and e.func.id == 'round' and len(e.args) in (1, 2):
+            return round(ev(e.args[0], loc), *[ev(a, loc) for a in e.args[1:]])
+        if isinstance(e, ast.Call) and isinstance(e.func, ast.Name) and e.func.id in ('float', 'abs') and len(e.args) == 1:
+            return {'float': float, 'abs': abs}[e.func.id](ev(e.args[0], loc))
+        if isinstance(e, ast.IfExp):
+            return ev(e.body, loc) if ev(e.test, loc) else ev(e.orelse, loc)
         if isinstance(e, ast.Call) and isinstance(e.func, ast.Name) and e.func.id in ('min', 'max'):
             vals = [ev(a, loc) for a in e.args]
             return min(vals) if e.func.id == 'min' else max(vals)
